@@ -158,6 +158,17 @@ pub enum Got<T> {
     StepCap,
 }
 impl<T> Got<T> {
+    pub fn map<U>(&self, f: impl FnOnce(&T) -> U) -> Got<U> {
+        match self {
+            Got::Val(v) => Got::Val(f(v)),
+            Got::Err(e) => Got::Err(e.clone()),
+            Got::Panic(m) => Got::Panic(m.clone()),
+            Got::StepCap => Got::StepCap,
+        }
+    }
+    pub fn is_step_cap(&self) -> bool {
+        matches!(self, Got::StepCap)
+    }
     pub fn is_panic(&self) -> bool {
         matches!(self, Got::Panic(_))
     }
